@@ -101,6 +101,15 @@ func ruleM1(c *Ctx) {
 	calls := func(fn, callee *ssa.Function) bool { return len(callsTo(fn, callee)) > 0 }
 	c.check(calls(uu, str), "LookupOptions.UUID hashes String()", uu.Pos(), "UUID() = SHA1(String())", "LookupOptions.UUID no longer hashes String(): the field coverage above says nothing about the key")
 	c.check(calls(comb, uu), "combinedUUID includes lo.UUID()", comb.Pos(), "the options identity is part of every key", "combinedUUID no longer includes the lookup options: lookups with different options share cache entries")
+	// the options hashed are the options of the lookup itself, not an edited copy
+	allInstrs(comb, func(in ssa.Instruction) {
+		cc := callCommon(in)
+		if cc == nil || cc.StaticCallee() != uu || len(cc.Args) == 0 {
+			return
+		}
+		_, isParam := cc.Args[0].(*ssa.Parameter)
+		c.check(isParam, "combinedUUID hashes the options it was given", in.Pos(), "UUID() is taken of the parameter", "combinedUUID takes the UUID of "+truncate(c.term(cc.Args[0]), 60)+", not of the options the lookup was called with: lookups whose options differ in what was edited out share a cache entry although the wrapped store answers them differently")
+	})
 	// combinedUUID joins every component uuid
 	usesAll := false
 	allInstrs(comb, func(in ssa.Instruction) {
